@@ -227,8 +227,10 @@ func (u *Unit) Run() {
 		}
 	}
 	u.entryVals = fr.params
-	// global invariants
-	st.assumeGlobalInvs()
+	// global invariants (not inside the package initialisers that establish them)
+	if u.spec == nil || u.spec.Flags["noglobals"] == "" {
+		st.assumeGlobalInvs()
+	}
 	// entry snapshot
 	st.entry = st.clone()
 	st.entry.entry = nil
@@ -379,6 +381,16 @@ func (st *State) enterBlock() bool {
 				st.assumeAll(env.defs)
 				st.u.addObl(st, "loop-step", pfx+"/"+clauseName(c), fr.block.Instrs[0].Pos(), t, false)
 			}
+			for _, c := range ls.Steps {
+				if le.head == nil {
+					continue
+				}
+				env := st.newEnv(fr, nil)
+				env.prev = le.head
+				t := env.evalBool(c.E)
+				st.assumeAll(env.defs)
+				st.u.addObl(st, "loop-step", pfx+"/step:"+clauseName(c), fr.block.Instrs[0].Pos(), t, false)
+			}
 			if ls.Decreases != nil && le.has {
 				env := st.newEnv(fr, nil)
 				d := env.evalInt(ls.Decreases.E)
@@ -418,6 +430,9 @@ func (st *State) enterBlock() bool {
 		}
 	}
 	fr.loopsSeen[fr.block] = le
+	if ls != nil && len(ls.Steps) > 0 {
+		le.head = st.clone()
+	}
 	inf := st.inferInvariants(preLoop, li, ws)
 	var names []string
 	for _, c := range inf {
